@@ -20,54 +20,34 @@ def rule_no_growth_in_shrink(ctx, rule="C13-nogrowth"):
 
 def rule_shrink_guards(ctx, rule="C13-guard"):
     import re
-    from guards import guards_at, describe
-    from r_reach import heap_gate_sites, site_name
+    from guards import inlined_sites, describe
+    from typestate import Solver, T
     F, cg = ctx.F, ctx.cg
     M = F.const_scalar("repr::MAX_INLINE_SIZE")
     b = F.bodies.get("repr::Repr::shrink_to")
     if not b:
         return
     newcap = r"^core::cmp::Ord::max\(repr::heap_buffer::HeapBuffer::len\(.*p1.*\), p2\)$"
-    n = 0
-    for bb, t in b.calls():
-        k = t.get("local_key")
-        nme = callee_name(t)
-        if not (k and k.startswith("repr::heap_buffer::") and cg.may_allocate(k)):
-            continue
-        n += 1
-        gs = guards_at(b, bb)
-        smaller = False
-        for g in gs:
-            if g[0] == "cmp2":
-                op, x, y = g[1], describe(b, g[2]), describe(b, g[3])
-                if op == "Lt" and re.search(newcap, x) and "HeapBuffer::capacity(" in y:
-                    smaller = True
-                if op == "Gt" and re.search(newcap, y) and "HeapBuffer::capacity(" in x:
-                    smaller = True
-        ctx.ob(rule, b.path, "only-when-smaller:" + site_name(b, bb), smaller, line=t.get("line", 0), how="dominated by max(len, min) < old capacity",
-               detail="%s in shrink_to is not behind `new_capacity < old_capacity`: a shrink request at or above the current capacity can reallocate, grow or fail" % nme)
-        # capacity operand is the request
-        ai = 1
-        cap = describe(b, b.origin_operand(t["args"][ai]))
-        ctx.ob(rule, b.path, "capacity=request:" + site_name(b, bb), re.search(newcap, cap) is not None, line=t.get("line", 0), how="capacity operand = max(len, min_capacity)",
-               detail="%s in shrink_to is sized with %s instead of max(len, min_capacity)" % (nme, cap))
-    ctx.need(rule, b.path, "sites", n >= 2, "shrink_to has %d buffer-changing call sites (expected the in-place and the shared one)" % n, how="%d buffer-changing sites" % n)
-    # inline conversion behind the exact threshold
-    for bb, t in b.calls():
-        if callee_name(t) == "repr::inline_buffer::InlineBuffer::new":
-            gs = guards_at(b, bb)
-            ok = any(g[0] == "cmp" and g[3] == M and g[2] is None and re.search(newcap, describe(b, g[1])) for g in gs)
-            ctx.ob(rule, b.path, "inline-conversion", ok, how="inline conversion behind max(len, min) <= %d" % M, detail="heap-to-inline conversion in shrink_to is not behind `max(len, min_capacity) <= %d`" % M)
-    # non-heap receivers: no effect at all
-    from typestate import Solver, T
+    is_gate = lambda n: n.startswith("repr::heap_buffer::") and n in F.bodies and cg.may_allocate(n)
+    sites = inlined_sites(b, is_gate)
+    for st in sites:
+        gs = st.guards()
+        smaller = any(g[0] == "cmp2" and ((g[1] == "Lt" and re.search(newcap, g[2]) and "HeapBuffer::capacity(" in g[3]) or (g[1] == "Gt" and re.search(newcap, g[3]) and "HeapBuffer::capacity(" in g[2])) for g in gs)
+        ctx.ob(rule, b.path, "only-when-smaller:" + st.label(), smaller, line=st.line, how="dominated by max(len, min) < old capacity",
+               detail="%s in shrink_to is not behind `new_capacity < old_capacity`: a shrink request at or above the current capacity can reallocate, grow or fail" % st.name)
+        cap = st.desc(1)
+        ctx.ob(rule, b.path, "capacity=request:" + st.label(), re.search(newcap, cap) is not None, line=st.line, how="capacity operand = max(len, min_capacity)",
+               detail="%s in shrink_to is sized with %s instead of max(len, min_capacity)" % (st.name, cap))
+    ctx.need(rule, b.path, "sites", len(sites) >= 2, "shrink_to has %d buffer-changing call sites (expected the in-place and the shared one)" % len(sites), how="%d buffer-changing sites" % len(sites))
+    for st in inlined_sites(b, lambda n: n == "repr::inline_buffer::InlineBuffer::new"):
+        ok = any(g[0] == "cmp" and g[3] == M and g[2] is None and re.search(newcap, g[1]) for g in st.guards())
+        ctx.ob(rule, b.path, "inline-conversion", ok, how="inline conversion behind max(len, min) <= %d" % M, detail="heap-to-inline conversion in shrink_to is not behind `max(len, min_capacity) <= %d`" % M)
     S = Solver(F)
     for k in ("I", "S"):
         t0 = T(kind=k, uniq=False, ref="own", acq=False, inc=0, asg=False, dirty=False, ret=None, facts=frozenset())
         res, ev = S.walk(b, ("param", 1), t0)
         bad = [(c, t.kind, t.asg, t.dirty) for c, t in res if t.asg or t.dirty or t.kind != k or c != "Ok"]
         ctx.ob(rule, b.path, "non-heap-untouched[%s]" % k, not bad, how="kind=%s returns Ok without touching the handle" % k, detail="shrink_to on a non-heap string has an effect: %s" % bad)
-    # the text copied is the receiver's own
-    for bb, t in b.calls():
-        if callee_name(t) in ("repr::heap_buffer::HeapBuffer::with_exact_capacity", "repr::heap_buffer::HeapBuffer::new", "repr::inline_buffer::InlineBuffer::new"):
-            src = describe(b, b.origin_operand(t["args"][0]))
-            ctx.ob(rule, b.path, "copy-source:" + site_name(b, bb), src.startswith("repr::heap_buffer::HeapBuffer::as_str(") and "p1" in src, how="copies heap.as_str()", detail="shrink_to copies %s" % src)
+    for st in inlined_sites(b, lambda n: n in ("repr::heap_buffer::HeapBuffer::with_exact_capacity", "repr::heap_buffer::HeapBuffer::new", "repr::inline_buffer::InlineBuffer::new")):
+        src = st.desc(0)
+        ctx.ob(rule, b.path, "copy-source:" + st.label(), src.startswith("repr::heap_buffer::HeapBuffer::as_str(") and "p1" in src, how="copies heap.as_str()", detail="shrink_to copies %s" % src)
